@@ -43,6 +43,7 @@ type c15Case struct {
 	Wrap     bool   `json:"wrap,omitempty"`     // --wrap: long items take several rows
 	WrapSign string `json:"wrap_sign,omitempty"`
 	Read0    bool   `json:"read0,omitempty"`    // --read0: items may contain newlines (multi-line items)
+	Ghost    string `json:"ghost,omitempty"`    // --ghost: text shown in the place of an empty query (c15ghost.go)
 	Lines   []string `json:"lines"`
 	Actions []string `json:"actions"`
 }
@@ -70,6 +71,9 @@ func (cs *c15Case) args() []string {
 	}
 	if cs.Read0 {
 		a = append(a, "--read0")
+	}
+	if cs.Ghost != "" {
+		a = append(a, "--ghost="+cs.Ghost)
 	}
 	if !cs.Sep {
 		a = append(a, "--no-separator")
@@ -167,7 +171,15 @@ func (cs *c15Case) maxItemsH(nheader, nhl int) int {
 	return max(cs.H-nheader-nhl-cs.promptLines(), 0)
 }
 
-func c15View(st *FzfState, cy, off int, prompt string) Val {
+// c15In: what the input area holds besides the query GET / reports (tracked from the actions sent)
+type c15In struct {
+	prompt string
+	ghost  string
+	cx     int // cursor inside the query, -1: not known
+}
+
+func c15View(st *FzfState, cy, off int, in c15In) Val {
+	prompt := in.prompt
 	ms := make([]Val, len(st.Matches))
 	for i, m := range st.Matches {
 		ms[i] = L(I(m.Index), runesVal(m.Text))
@@ -176,7 +188,8 @@ func c15View(st *FzfState, cy, off int, prompt string) Val {
 	for i, m := range st.Selected {
 		sel[i] = I(m.Index)
 	}
-	return L(runesVal(st.Query), L(ms...), I(st.TotalCount), I(cy), I(off), L(sel...), runesVal(prompt))
+	// [7] ghost text, [8] cursor: read by ops 1509 / 1510 only
+	return L(runesVal(st.Query), L(ms...), I(st.TotalCount), I(cy), I(off), L(sel...), runesVal(prompt), runesVal(in.ghost), I(max(in.cx, 0)))
 }
 
 func valRows(v Val) []string {
@@ -207,6 +220,8 @@ func c15Clause(code int) string {
 		return "multi_row_items(every row of a wrapped / multi-line item shows its item's text and nothing else)"
 	case code == 4:
 		return "info_visible(the matched/total counter is on the row the info style dictates)"
+	case code == 7:
+		return "faithful.prompt_row(the prompt row shows the current query)"
 	case code >= 100 && code < 1000:
 		return fmt.Sprintf("rows_faithful/pointer_marker_exact(slot %d)", code-100)
 	case code >= 1000 && code < 2000:
@@ -259,21 +274,8 @@ func (cs *c15Case) expectCount(q string) int {
 
 // effect of an action list on the query (only the query-changing actions the generator uses)
 func c15Query(q string, actions string) string {
-	for _, a := range strings.Split(actions, "+") {
-		switch {
-		case strings.HasPrefix(a, "put(") && strings.HasSuffix(a, ")"):
-			q += a[4 : len(a)-1]
-		case strings.HasPrefix(a, "change-query(") && strings.HasSuffix(a, ")"):
-			q = a[13 : len(a)-1]
-		case a == "backward-delete-char":
-			if r := []rune(q); len(r) > 0 {
-				q = string(r[:len(r)-1])
-			}
-		case a == "clear-query":
-			q = ""
-		}
-	}
-	return q
+	q2, _ := c15Edit(q, len([]rune(q)), actions) // c15ghost.go; edits at the end of the query
+	return q2
 }
 
 // the prompt string after an action list (change-prompt)
@@ -317,6 +319,14 @@ func c15RunOnce(c *Ctx, cs *c15Case, count bool, timeout time.Duration) (*c15Fai
 	total := len(cs.Lines) - cs.HLines
 	off := 0
 	query := ""
+	cx := 0
+	ghost := cs.Ghost
+	// sessions with a ghost text: the spec and the render that know about it (ops 1509 / 1510)
+	ghostMode := cs.ghostMode()
+	opSpec, opRender := 1504, 1502
+	if ghostMode {
+		opSpec, opRender = 1509, 1510
+	}
 	prompt := cs.Prompt
 	if prompt == "" {
 		prompt = "> "
@@ -359,8 +369,9 @@ func c15RunOnce(c *Ctx, cs *c15Case, count bool, timeout time.Duration) (*c15Fai
 				}
 				return nil, steps, fmt.Errorf("post %q: %v", act, err)
 			}
-			query = c15Query(query, act)
+			query, cx = c15Edit(query, cx, act)
 			prompt = c15Prompt(prompt, act)
+			ghost = c15Ghost(ghost, act)
 			if c15HasHeaderAction(act) {
 				hdr.apply(act)
 				dyn = true
@@ -416,8 +427,8 @@ func c15RunOnce(c *Ctx, cs *c15Case, count bool, timeout time.Duration) (*c15Fai
 			if len(co.L) != 2 {
 				return false
 			}
-			v2 := c15View(st, int(co.L[0].I), int(co.L[1].I), prompt)
-			for _, x := range c.Model.Call(1504, L(cs.cfgValH(sh, snl), v2, rowsVal(rows))).L {
+			v2 := c15View(st, int(co.L[0].I), int(co.L[1].I), c15In{prompt, ghost, cx})
+			for _, x := range c.Model.Call(opSpec, L(cs.cfgValH(sh, snl), v2, rowsVal(rows))).L {
 				code := int(x.I)
 				if !cs.exact() && (code >= 100 && code < 1000 || code >= 2000 && code < 5000) {
 					continue
@@ -448,7 +459,7 @@ func c15RunOnce(c *Ctx, cs *c15Case, count bool, timeout time.Duration) (*c15Fai
 			pos = max(st.Position, 0)
 			if cs.mrows() { // the scroll offset of multi-row lists is not tracked: the spec asks for SOME offset
 				cy, noff = min(pos, max(st.MatchCount-1, 0)), 0
-				view = c15View(st, cy, 0, prompt)
+				view = c15View(st, cy, 0, c15In{prompt, ghost, cx})
 				return
 			}
 			co := c.Model.Call(1501, L(I(st.MatchCount), I(maxl), I(3), I(pos), I(off)))
@@ -457,9 +468,9 @@ func c15RunOnce(c *Ctx, cs *c15Case, count bool, timeout time.Duration) (*c15Fai
 				return
 			}
 			cy, noff = int(co.L[0].I), int(co.L[1].I)
-			view = c15View(st, cy, noff, prompt)
+			view = c15View(st, cy, noff, c15In{prompt, ghost, cx})
 			if cs.exact() {
-				wantRows = valRows(c.Model.Call(1502, L(cfg, view)))
+				wantRows = valRows(c.Model.Call(opRender, L(cfg, view)))
 			}
 		}
 		expect()
@@ -498,7 +509,7 @@ func c15RunOnce(c *Ctx, cs *c15Case, count bool, timeout time.Duration) (*c15Fai
 				}
 				return true
 			}
-			fv := c.Model.Call(1504, L(cfg, view, rowsVal(rows)))
+			fv := c.Model.Call(opSpec, L(cfg, view, rowsVal(rows)))
 			for _, x := range fv.L {
 				code := int(x.I)
 				if code >= 100 && code < 1000 || code >= 2000 {
@@ -592,7 +603,7 @@ func c15RunOnce(c *Ctx, cs *c15Case, count bool, timeout time.Duration) (*c15Fai
 			return overflowFailure(), steps, nil
 		}
 		if cs.exact() {
-			fv := c.Model.Call(1504, L(cfg, view, rowsVal(rows)))
+			fv := c.Model.Call(opSpec, L(cfg, view, rowsVal(rows)))
 			bad = nil
 			for _, x := range fv.L {
 				bad = append(bad, int(x.I))
@@ -614,7 +625,7 @@ func c15RunOnce(c *Ctx, cs *c15Case, count bool, timeout time.Duration) (*c15Fai
 				f.Expect = wantRows
 			} else if bad[0] == 6 && len(mrowsInfo) == 3 {
 				// what the list rows should show for the scroll offset that explains most of the screen
-				v2 := c15View(st, cy, mrowsInfo[1], prompt)
+				v2 := c15View(st, cy, mrowsInfo[1], c15In{prompt, ghost, cx})
 				exp := map[string]string{}
 				for _, e := range c.Model.Call(1507, L(cfg, mode, v2)).L {
 					if len(e.L) == 2 {
@@ -624,7 +635,7 @@ func c15RunOnce(c *Ctx, cs *c15Case, count bool, timeout time.Duration) (*c15Fai
 				f.Expect = map[string]interface{}{"best_offset": mrowsInfo[1], "rows_that_differ": mrowsInfo[2], "list_rows": exp}
 			} else if len(bad) == 1 && (bad[0] == 2 || bad[0] == 3) {
 				// prompt and info rows do not depend on the width of the list texts: the model's rows classify
-				wantRows = valRows(c.Model.Call(1502, L(cfg, view)))
+				wantRows = valRows(c.Model.Call(opRender, L(cfg, view)))
 			}
 			// known finding: stale characters after a shortened info text that fills the row (see KNOWN_FINDINGS)
 			if k := c15KnownInfoStale(cs, bad, rows, wantRows, st); k != "" {
@@ -658,8 +669,8 @@ func c15RunOnce(c *Ctx, cs *c15Case, count bool, timeout time.Duration) (*c15Fai
 			c.Rep.Eval(key, st.MatchCount > 0 && step >= 0)
 		}
 	}
-	// the incremental-redraw machine on the whole history
-	if cs.exact() && len(history) > 0 {
+	// the incremental-redraw machine on the whole history (it has no ghost text: RenderGhostModel is a full render)
+	if cs.exact() && len(history) > 0 && !ghostMode {
 		h0 := history[0].view
 		v0 := L(h0.L[0], h0.L[1], h0.L[2], h0.L[3], I(0), h0.L[4], h0.L[6])
 		us := []Val{}
@@ -1073,6 +1084,9 @@ func c15Check(c *Ctx, cs *c15Case) {
 	if cs.Read0 {
 		c.Rep.Count("read0")
 	}
+	if cs.ghostMode() {
+		c.Rep.Count("ghost")
+	}
 	c.Rep.Count(fmt.Sprintf("header=%d", len(cs.Header)))
 	c.Rep.Count(fmt.Sprintf("hlines=%d", cs.HLines))
 	if cs.Multi != 0 {
@@ -1300,12 +1314,18 @@ func runC15(c *Ctx) {
 		if i%16 == 11 { // tabs in items and header lines, and the header changes
 			c15AddHeaderActions(cs, c.Rng.Fork(), 5, false)
 		}
+		if i%16 == 2 || i%16 == 14 { // a ghost text, edits of the query and cursor motions inside it (c15ghost.go)
+			c15KindGhost(cs, c.Rng.Fork())
+		}
 		cases = append(cases, cs)
 	}
 	for i := 0; i < nu; i++ {
 		cs := c15Gen(c, c.Rng.Fork(), true)
 		if i%3 == 1 {
 			c15AddHeaderActions(cs, c.Rng.Fork(), 5, i%2 == 0)
+		}
+		if i%5 == 2 && cs.W >= 40 { // the query stays empty in these sessions: the ghost text is on the prompt row throughout
+			cs.Ghost = Pick(c.Rng, c15GhostTexts)
 		}
 		cases = append(cases, cs)
 	}
@@ -1319,9 +1339,18 @@ func runC15(c *Ctx) {
 	for i := 0; i < nm; i++ {
 		cs := c15Gen(c, c.Rng.Fork(), false)
 		c15Kind(cs, c.Rng.Fork(), []string{"wrap", "wrap", "read0"}[i%3])
+		if i%5 == 3 {
+			c15KindGhost(cs, c.Rng.Fork())
+		}
 		if i%4 == 2 {
 			c15AddHeaderActions(cs, c.Rng.Fork(), 5, true)
 		}
+		cases = append(cases, cs)
+	}
+	ng := c.N(20, 250) // sessions made for the input area: ghost text, edits at the cursor, cursor motions (c15ghost.go)
+	for i := 0; i < ng; i++ {
+		cs := c15Gen(c, c.Rng.Fork(), false)
+		c15KindGhost(cs, c.Rng.Fork())
 		cases = append(cases, cs)
 	}
 	var wg sync.WaitGroup
